@@ -98,7 +98,13 @@ fn xlsx_bytes(case: &Case) -> Vec<u8> {
                 .collect(),
         })
         .collect();
-    xx::encode(&xx::XlsxDoc { sheets: vec![xx::XSheet { name: "H".into(), rows, ..Default::default() }], ..Default::default() })
+    // the declared used range may be absent, exact or stale (A1): it must not steer the header row
+    let dimension = match case.cells.len() % 3 {
+        0 => xx::XDim::Absent,
+        1 => xx::XDim::Exact,
+        _ => xx::XDim::Custom("A1".into()),
+    };
+    xx::encode(&xx::XlsxDoc { sheets: vec![xx::XSheet { name: "H".into(), rows, dimension, ..Default::default() }], ..Default::default() })
 }
 
 fn xlsb_bytes(case: &Case) -> Vec<u8> {
@@ -120,7 +126,8 @@ fn xlsb_bytes(case: &Case) -> Vec<u8> {
                 .collect(),
         })
         .collect();
-    bb::encode(&bb::XlsbDoc { sheets: vec![bb::BbSheet { name: "H".into(), rows, ..Default::default() }], ..Default::default() })
+    // BrtWsDim exact, stale (A1) or larger than the data
+    bb::encode(&bb::XlsbDoc { sheets: vec![bb::BbSheet { name: "H".into(), rows, dim: (case.cells.len() % 3) as u8, ..Default::default() }], ..Default::default() })
 }
 
 fn xls_bytes(case: &Case) -> Vec<u8> {
